@@ -14,6 +14,7 @@ RULES = {
     "C10.R4": "literal round trip: for each meta key the writer's encoding and the reader's decoding agree (str <-> ast.literal_eval, qtype.name <-> qtypes[...])",
     "C10.R5": "safetensors: plain tensors go to tensors, everything else to metadata; loading merges both",
     "C10.R10": "a reloaded unfrozen model computes with the weights it was given: the quantized weight is derived from the current self.weight on every access (no cache survives the in-place copy of load_state_dict) - the weight-source rule shared with C08.R7 / C09.R2-R3",
+    "C10.R11": "state_dict tensors are the module's own: from_module copies weight and bias into the (contiguous, unshared) parameters the constructor allocated (C08.R4 re-checked), and every value written to the input_scale / output_scale buffers is a freshly computed tensor - never a reference to, or a view of, a tensor another object owns (safetensors refuses shared or non-contiguous tensors)",
     "C10.R6": "derived state: attributes that __init__ derives from weight_qtype are re-derived wherever weight_qtype is reassigned",
     "C10.R7": "requantize coverage: a kwarg that gates the creation of a registered module class is derived from the state_dict when re-quantizing",
     "C10.R8": "requantize order: device captured -> to(meta) -> quantize -> to_empty(cpu) -> load_state_dict -> to(device)",
@@ -79,6 +80,7 @@ def run(chk):
     from .c09 import qweight_source
     qweight_source(chk, r2="C10.R10", r3="C10.R10")
     requantize_rules(chk)
+    owned_tensors(chk)
     chk.assume("torch.save/torch.load and safetensors store plain tensors and strings faithfully", "nn.Module.load_state_dict loads registered buffers and parameters by name")
 
 
@@ -552,3 +554,113 @@ def requantize_rules(chk):
             seq_ok = False
             detail = f"{order}"
     chk.require("C10.R8", f"{mi.rel}:{rq.lineno}", seq_ok and bool(ps), f"requantize: device captured from the model, to(meta), quantize, to_empty(cpu), load_state_dict(state_dict), to(original device) in that order {detail[:120]}", "requantize", "requantize order", "requantize(model, state_dict): weights loaded into meta tensors / model left on the wrong device")
+
+
+_FRESH_METHODS = {"max", "min", "amax", "amin", "abs", "mean", "sum", "clone", "mul", "div", "add", "sub", "norm", "sqrt", "clamp", "dequantize", "maximum", "minimum", "new_ones", "new_zeros", "new_tensor"}
+_ALIAS_METHODS = {"to", "detach", "view", "reshape", "squeeze", "unsqueeze", "flatten", "t", "contiguous", "expand", "float", "half", "bfloat16", "type", "cpu", "cuda", "requires_grad_", "view_as", "expand_as", "data"}
+_FRESH_TORCH = {"ones", "zeros", "tensor", "empty", "full", "ones_like", "zeros_like", "max", "min", "amax", "amin", "abs", "mean", "sum", "clone", "maximum", "minimum", "mul", "div", "add", "sub", "sqrt", "clamp", "stack", "cat", "where", "scalar_tensor"}
+_ALIAS_TORCH = {"reshape", "squeeze", "unsqueeze", "flatten", "t", "detach", "as_strided", "broadcast_to", "atleast_1d", "as_tensor", "asarray"}
+
+
+def freshness(repo, mod, e, bind, depth=0):
+    """'fresh' | 'alias <what>' | 'unknown <what>' for the tensor an expression evaluates to."""
+    from ..core import positional_params
+    if isinstance(e, (ast.BinOp, ast.UnaryOp)):
+        return "fresh"
+    if isinstance(e, ast.IfExp):
+        a, b = freshness(repo, mod, e.body, bind, depth), freshness(repo, mod, e.orelse, bind, depth)
+        return a if a != "fresh" else b
+    if isinstance(e, ast.Name):
+        return bind.get(e.id, f"unknown name {e.id}")
+    if isinstance(e, (ast.Attribute, ast.Subscript)):
+        if isinstance(e, ast.Attribute) and e.attr == "data":
+            return freshness(repo, mod, e.value, bind, depth)
+        return "alias " + U(e)
+    if isinstance(e, ast.Call):
+        f = e.func
+        if isinstance(f, ast.Attribute):
+            t = U(f)
+            if t.startswith("torch."):
+                n = t.split(".")[-1]
+                if n in _FRESH_TORCH:
+                    return "fresh"
+                if n in _ALIAS_TORCH and e.args:
+                    return freshness(repo, mod, e.args[0], bind, depth)
+                return "unknown " + t
+            if f.attr in _FRESH_METHODS:
+                return "fresh"
+            if f.attr in _ALIAS_METHODS:
+                return freshness(repo, mod, f.value, bind, depth)
+            return "unknown method " + f.attr
+        if isinstance(f, ast.Name) and depth < 4:
+            r = repo.resolve(mod, f.id)
+            if r is not None and isinstance(r[1], ast.FunctionDef):
+                cm, cf = r
+                params = positional_params(cf)
+                b2 = {}
+                for i, a in enumerate(e.args):
+                    if i < len(params):
+                        b2[params[i]] = freshness(repo, mod, a, bind, depth)
+                for k in e.keywords:
+                    if k.arg:
+                        b2[k.arg] = freshness(repo, mod, k.value, bind, depth)
+                worst = None
+                for p in paths_of(cf):
+                    if p.end[0] != "return" or p.end[1] is None:
+                        continue
+                    v = freshness(repo, cm, p.end[1], b2, depth + 1)
+                    if v != "fresh" and (worst is None or v.startswith("alias")):
+                        worst = v
+                return worst or "fresh"
+        return "unknown call " + U(f)
+    return "unknown " + type(e).__name__
+
+
+def owned_tensors(chk):
+    from ..report import AliasedCheck
+    from . import c08
+    repo = chk.repo
+    if chk.pid == "C10":
+        c08.copy_rule(AliasedCheck(chk, {"C08.R4": "C10.R11"}))
+    names = ("input_scale", "output_scale")
+    n = 0
+    for mi in repo.modules.values():
+        fns = []
+        for node in ast.walk(mi.tree):
+            if isinstance(node, (ast.FunctionDef,)):
+                fns.append(node)
+        for fn in fns:
+            nodes = list(ast.walk(fn))
+            stores = any(isinstance(x, ast.Attribute) and x.attr in names and isinstance(x.ctx, ast.Store) for x in nodes)
+            regs = any(isinstance(x, ast.Constant) and x.value in names for x in nodes) and any(isinstance(x, ast.Attribute) and x.attr == "register_buffer" for x in nodes)
+            if not stores and not regs:
+                continue
+            try:
+                ps = paths_of(fn)
+            except AnalysisError as ex:
+                chk.unknown("C10.R11", f"{mi.rel}:{fn.lineno}", f"{fn.name}: paths not enumerated ({ex})")
+                continue
+            seen = set()
+            for p in ps:
+                for ef in p.effects:
+                    tgt = val = None
+                    if ef[0] == "store" and ef[2] in names:
+                        tgt, val, line = f"{U(ef[1])}.{ef[2]}", ef[3], ef[4]
+                    elif ef[0] == "expr" and isinstance(ef[1], ast.Call) and U(ef[1].func).endswith(".register_buffer") and len(ef[1].args) >= 2 and isinstance(ef[1].args[0], ast.Constant) and ef[1].args[0].value in names:
+                        tgt, val, line = f"{U(ef[1].func.value)}.{ef[1].args[0].value}", ef[1].args[1], ef[2]
+                    if tgt is None or (line, U(val)) in seen:
+                        continue
+                    seen.add((line, U(val)))
+                    n += 1
+                    v = freshness(repo, mi, val, {})
+                    site = f"{mi.rel}:{line}"
+                    own = v == "alias " + tgt
+                    what = f"{fn.name}: `{tgt} = {U(val)[:80]}` is a freshly computed tensor ({v})"
+                    if v == "fresh" or own:
+                        chk.ok("C10.R11", site, what)
+                    elif v.startswith("alias"):
+                        chk.bad("C10.R11", site, fn.name, "scale buffer aliases another tensor", "NOT: " + what,
+                                "two chained quantized modules calibrated with quantized activations: the second module's input_scale is the first one's output_scale (or a quantized tensor's scale); the state_dict holds tensors sharing memory and safe_save() refuses it")
+                    else:
+                        chk.unknown("C10.R11", site, what)
+    chk.floor("C10.R11", n, 4, "writes of the activation scale buffers")
